@@ -357,6 +357,7 @@ RECV_TYPES = {
     ('*', 'kwargs'): ['ext:dict'],
     ('*', 'self._original_request'): ['wpull.protocol.http.request:Request'],
     ('*', 'self._response.fields'): [NVR],
+    ('wpull.protocol.http.web:WebSession._process_redirect', 'new_fields'): [NVR],
     ('wpull.protocol.http.stream', 'request'): ['wpull.protocol.http.request:Request'],
     ('wpull.protocol.http.stream', 'response'): ['wpull.protocol.http.request:Response'],
     ('wpull.protocol.http.web', 'request'): ['wpull.protocol.http.request:Request'],
@@ -408,6 +409,8 @@ CALLS = {
 EXT_BASE_METHODS = {
     ('ext:collections.MutableMapping', 'get'): PURE,       # Mapping.get catches KeyError
     ('ext:collections.MutableMapping', '__contains__'): PURE,
+    # MutableMapping.pop(key, default) catches the KeyError of __getitem__; with one argument it raises it
+    ('ext:collections.MutableMapping', 'pop'): ('prim_if_nargs', 'pop', 1),
 }
 EXT_BASES_PURE = set()
 
@@ -502,6 +505,7 @@ SAFE_SITES = {
         "strategy 'length' is chosen only when 'Content-Length' in response.fields",
     ('wpull.namevalue:NameValueRecord.parse', 'unpack', "(name, value) = line.split(':', 1)"): "':' in line checked just above",
     ('wpull.namevalue:unfold_lines', 'assert', 'isinstance(string, str)'): 'parse() decodes bytes before calling',
+    ('wpull.namevalue:split_lines', 'index', 'lines[-1]'): "guarded by 'lines and' on the same line / the enclosing if",
     ('wpull.namevalue:unfold_lines', 'index', 'lines[line_number]'): 'line_number in range(len(lines))',
     ('wpull.decompression:DeflateDecompressor.is_zlib_header', 'index', 'data[0]'): 'called once 2 bytes are buffered',
     ('wpull.decompression:DeflateDecompressor.is_zlib_header', 'index', 'data[1]'): 'called once 2 bytes are buffered',
@@ -533,6 +537,10 @@ SAFE_SITES = {
     ('wpull.protocol.ftp.ls.listing:LineParser.set_datetime_format', 'unpack', '(self.date_format, self.is_day_period) = datetime_format'):
         'guess_datetime_format returns a 2-tuple',
     ('wpull.protocol.ftp.ls.listing:LineParser.parse_msdos', 'index', 'self.parse_datetime(datetime_str)[0]'): 'parse_datetime returns a 3-tuple or raises',
+    ('wpull.protocol.ftp.ls.listing:LineParser.parse_msdos', 'index', 'fields[0]'): 'len(fields) < 4 raises ListingError just above',
+    ('wpull.protocol.ftp.ls.listing:LineParser.parse_msdos', 'index', 'fields[1]'): 'len(fields) < 4 raises ListingError just above',
+    ('wpull.protocol.ftp.ls.listing:LineParser.parse_msdos', 'index', 'fields[2]'): 'len(fields) < 4 raises ListingError just above',
+    ('wpull.protocol.ftp.ls.listing:LineParser.parse_msdos', 'index', 'fields[3]'): 'len(fields) < 4 raises ListingError just above',
     ('wpull.protocol.ftp.ls.listing:LineParser.parse_unix', 'index', 'field[0]'): 'empty fields are skipped just above',
     ('wpull.protocol.ftp.ls.listing:LineParser.parse_unix', 'unpack', '(datetime_obj, start_index, end_index) = self.parse_datetime(line)'):
         'parse_datetime returns a 3-tuple or raises',
